@@ -789,6 +789,20 @@ func scenarioNoteMut(t *traceWriter, rng *rand.Rand) {
 			}
 			s.updateFreshID(defs, wk, v, valid, "mut.unknownLogVariant")
 		}
+		// boundary shift: a genuine checkpoint with extension lines is accepted; then its last text lines are moved
+		// into the signature blob (text cut after line 3 or 4, signature = key hash ‖ the cut-off lines ‖ the genuine
+		// signature).  text‖signature is byte-for-byte what the log signed, split elsewhere: it must not verify.
+		{
+			ve := signNote(cpText(l.origin, 7, tr.root(7), "ext-one", "ext-two 93%"), l.key.signer)
+			res := s.update(l.id, old, ve, proof, "class=mut.primeExt")
+			at := old
+			if res.cls == "none" {
+				at = 7
+			}
+			for _, keep := range []int{3, 4} {
+				s.update(l.id, at, shiftBoundary(ve, keep), [][]byte{}, "class=mut.boundaryShift")
+			}
+		}
 		s.end()
 	}
 }
@@ -820,6 +834,28 @@ func (s *session) updateFresh(defs []*logDef, wk []witKey, l *logDef, withState 
 			s.update(defs[0].id, 0, signNote(cpText(defs[0].origin, 3, tr.root(3)), defs[0].key.signer), [][]byte{}, "class=setup")
 		}
 	}
+}
+
+// shiftBoundary keeps the first `keep` lines of a note's text and moves the rest of the text into the signature
+// blob of the (single) signature line, right after the 4 key-hash bytes.
+func shiftBoundary(n []byte, keep int) []byte {
+	i := bytes.LastIndex(n, []byte("\n\n"))
+	if i < 0 {
+		return n
+	}
+	text, sigs := string(n[:i+1]), strings.TrimSuffix(string(n[i+2:]), "\n")
+	lines := strings.SplitAfter(text, "\n")
+	if keep >= len(lines) {
+		return n
+	}
+	moved := strings.Join(lines[keep:], "")
+	sp := strings.LastIndex(sigs, " ")
+	raw, err := base64.StdEncoding.DecodeString(sigs[sp+1:])
+	if err != nil || len(raw) < 5 {
+		return n
+	}
+	nraw := append(append(append([]byte{}, raw[:4]...), []byte(moved)...), raw[4:]...)
+	return []byte(strings.Join(lines[:keep], "") + "\n" + sigs[:sp+1] + base64.StdEncoding.EncodeToString(nraw) + "\n")
 }
 
 // relabelSig rewrites the last signature line of a note to carry another key name and key hash, keeping the
